@@ -79,6 +79,7 @@ class Proc(plumpy.Process):
 
     async def run(self):
         self._trace.append('run')
+        self._ran_paused = getattr(self, '_ran_paused', False) or bool(self.paused)
         self.out('o1', 1)
         await asyncio.sleep(0)
         self._step_fault('run')
@@ -86,12 +87,14 @@ class Proc(plumpy.Process):
 
     def s2(self, a, k=None):
         self._trace.append('s2')
+        self._ran_paused = getattr(self, '_ran_paused', False) or bool(self.paused)
         self._step_fault('s2')
         self.out('o2', 2)
         return ps.Wait(self.s3)
 
     async def s3(self, v=None):
         self._trace.append('s3')
+        self._ran_paused = getattr(self, '_ran_paused', False) or bool(self.paused)
         await asyncio.sleep(0)
         self._step_fault('s3')
         return 5
@@ -247,6 +250,7 @@ def run_case(case):
         transitioning=bool(getattr(p, '_transitioning', False)),
         result=p.result() if p.state == ps.ProcessState.FINISHED else None,
         fault_ctx=p._fault_ctx,
+        ran_paused=bool(getattr(p, '_ran_paused', False)),
     )
     loop.close()
     return res
@@ -333,6 +337,9 @@ def monitors(case, res, base):
         if not reported:
             F('c03-pause-fault-not-reported', 'a fault in a pause or play hook is reported to whoever requested the pause or play',
               dict(calls=res['calls'], handed=res['handed']))
+        if res.get('ran_paused'):
+            F('c03-pause-fault-half-played', 'a fault in a pause or play hook leaves the process live and controllable: either paused '
+              '(and then not running) or playing', dict(detail='a step function started while the process reported paused', calls=res['calls'][-4:]))
         if res['state'] == 'excepted' and res['exception_is_fault']:
             F('c03-pause-fault-killed-process', 'a fault in a pause or play hook leaves the process live and controllable')
         elif res['state'] not in ('finished', 'killed'):
